@@ -176,6 +176,19 @@ def canonical_xml(el) -> str:
         return etree.tostring(el).decode()
 
 
+def public_canonical(obj):
+    """canonical value of a *throw-away* instance as a user sees it: every property read with `getattr` (through the
+    descriptor's `__get__`, which may write to `obj`), nested values canonicalised without further side effects"""
+    items = []
+    for name, p in class_props(type(obj)):
+        try:
+            v = getattr(obj, name)
+        except Exception as ex:  # noqa: BLE001
+            v = f'<{type(ex).__name__}>'
+        items.append([name, canonical(v, p)])
+    return ['o', type(obj).__name__, items]
+
+
 def canonical(v, prop=None):
     """Deep canonical (JSON-able) value. `prop` = descriptor the value is stored under (for implied values)."""
     if v is None and prop is not None:
